@@ -35,28 +35,33 @@ theorem sort_loses_duplicate_path :
 
 /-! ### eager dependencies first -/
 
+/-- A model that names itself as base (`A: allOf[$ref A, …]`) is self-inheritance; it is reported as
+circular base classes for every input that contains one, at every `recursion_count`. -/
+theorem sort_self_base_is_reported (rc : Nat) (ms : List Model) (h : ∃ m ∈ ms, m.path ∈ m.bases) :
+    sortDataModels rc ms = .error .circularBases :=
+  sortGo_selfBase rc ms [] [] h
+
+/-- …so whenever the function returns, no input model is its own base. -/
+theorem sort_ok_implies_no_self_base (rc : Nat) (ms : List Model) (out : Out)
+    (h : sortDataModels rc ms = .ok out) : ∀ m ∈ ms, m.path ∉ m.bases :=
+  sortGo_ok_noSelf rc ms [] [] out h
+
+example : sortDataModels 1000 [⟨0, [1], [1]⟩, ⟨1, [0, 1], [1]⟩] = .error .circularBases := by decide
+
 /-- In the returned order every base class of a model stands before it — for inputs with distinct
-paths in which no model names itself as a base (`reference_classes ⊇ bases` holds by the
-definition of `reference_classes`). In particular every base is among the returned models: a
-base that is missing from the input makes the function raise, never return. -/
+paths (`reference_classes ⊇ bases` holds by the definition of `reference_classes`). In particular
+every base is among the returned models: a base that is missing from the input makes the function
+raise, never return. -/
 theorem sort_base_before_derived (rc : Nat) (ms : List Model) (out : Out) (hd : DistinctPaths ms)
-    (hwf : ∀ m ∈ ms, WF m) (hns : ∀ m ∈ ms, m.path ∉ m.bases)
-    (h : sortDataModels rc ms = .ok out) :
+    (hwf : ∀ m ∈ ms, WF m) (h : sortDataModels rc ms = .ok out) :
     ∀ l1 m l2, out.sorted = l1 ++ m :: l2 → ∀ b ∈ m.bases, b ∈ l1.map (·.path) := by
+  have hns := sort_ok_implies_no_self_base rc ms out h
   have := sortGo_spec (B := True) rc ms [] [] out (by simpa using hd) (fun _ => ⟨hwf, hns⟩) (good_nil _) h
   intro l1 m l2 hl b hb
   exact hasKey_iff.mp ((this.1 l1 m l2 hl).1 trivial b hb)
 
 example : (sortDataModels 1000 [⟨0, [1, 2], [1]⟩, ⟨1, [2], []⟩, ⟨2, [0], []⟩]).map
     (·.sorted.map (·.path)) = .ok [1, 2, 0] := by decide
-
-/-- The no-self-base hypothesis cannot be dropped, and not only for the offending model itself:
-`B` names itself as base and has a member of type `A`, `A` derives from `B` — the function
-returns `A` before its base `B` instead of raising. (Self-inheritance is cyclic inheritance; the
-end-to-end oracle accepts only a reported error for it.) -/
-theorem self_base_breaks_order :
-    (sortDataModels 1000 [⟨0, [1], [1]⟩, ⟨1, [0, 1], [1]⟩]).map (·.sorted.map (·.path)) = .ok [0, 1] := by
-  decide
 
 /-- Every dependency of a returned model other than the model itself (member types and bases
 alike) either stands before it or the model is in `require_update_action_models`, i.e. gets a
@@ -91,7 +96,10 @@ theorem bubble_fixpoint_sound (l : List Model) (hd : DistinctPaths l)
 example : bubblePass [⟨1, [], []⟩, ⟨0, [1], [1]⟩, ⟨2, [0, 1], [1, 0]⟩] =
     [⟨1, [], []⟩, ⟨0, [1], [1]⟩, ⟨2, [0, 1], [1, 0]⟩] := by decide
 
-/-- With a self-base the fix-point `[A, B]` below has `A` before its base `B`. -/
+/-- The hypothesis is needed for the pass taken by itself: with a self-base the fix-point `[A, B]`
+below has `A` before its base `B`. Inside `sort_data_models` the hypothesis now always holds when the
+loop is reached (`sort_self_base_is_reported`) — before commit 4fca813 this was the way a cycle
+could hide from the bounded loop. -/
 theorem bubble_fixpoint_unsound_with_self_base :
     bubblePass [⟨0, [1], [1]⟩, ⟨1, [0, 1], [1]⟩] = [⟨0, [1], [1]⟩, ⟨1, [0, 1], [1]⟩] := by decide
 
@@ -126,30 +134,21 @@ theorem bubble_fixpoint_implies_acyclic (f : Nat) (l fx : List Model) (hd : Dist
   exact acyclic_of_bases_first l fx hperm hnd
     (fixpoint_sound fx hnd (fun m hm => hns m (hperm.mem_iff.mp hm)) hfix)
 
-/-- …and for the whole function: if it returns at all (distinct paths, no self-base), inheritance
-among the input models is acyclic. -/
+/-- …and for the whole function: if it returns at all (distinct paths), inheritance among the
+input models is acyclic. -/
 theorem sort_ok_implies_acyclic (rc : Nat) (ms : List Model) (out : Out) (hd : DistinctPaths ms)
-    (hwf : ∀ m ∈ ms, WF m) (hns : ∀ m ∈ ms, m.path ∉ m.bases)
-    (h : sortDataModels rc ms = .ok out) : Acyclic ms := by
+    (hwf : ∀ m ∈ ms, WF m) (h : sortDataModels rc ms = .ok out) : Acyclic ms := by
   have hperm := sort_perm rc ms out hd h
   have hnd : (out.sorted.map (·.path)).Nodup := ((hperm.map (·.path)).nodup_iff).mpr hd
   exact acyclic_of_bases_first ms out.sorted hperm hnd
-    (fun l1 m l2 hl b hb _ => sort_base_before_derived rc ms out hd hwf hns h l1 m l2 hl b hb)
-
-/-- The self-base hypothesis again: a 2-cycle `A ↔ B` is hidden from the bounded loop when `B`
-also names itself as base — both keys coincide, the pass is at a fix-point at once, the function
-returns `[A, B]`. Downstream `__sort_models` (with `keep_model_order`) then swaps the two for
-ever; without that option `class A(B)` is written before `B`. (Known finding C11-selfbase-hang.) -/
-theorem cycle_hidden_by_self_base :
-    (sortDataModels 1000 [⟨0, [1], [1]⟩, ⟨1, [0, 1], [0, 1]⟩]).map (·.sorted.map (·.path)) = .ok [0, 1] := by
-  decide
+    (fun l1 m l2 hl b hb _ => sort_base_before_derived rc ms out hd hwf h l1 m l2 hl b hb)
 
 /-! ### `Parser.__sort_models` (`--keep-model-order`) -/
 
 /-- Whenever the alphabetical pass returns, it returns a permutation of the module's models. -/
 theorem sortModels_perm (imp : List (List Nat)) (f : Nat) (l l' : List Named)
     (h : sortModels imp f l = some l') : l'.Perm l :=
-  ((swapLoop_spec imp f _ l' h).1).trans (sortBy_perm _ l)
+  ((swapLoop_spec _ imp f _ l' h).1).trans (sortBy_perm _ l)
 
 /-- …and in the order it returns every base class of a model that is a class of the module (and
 not the model itself) is either imported or stands before the model. (The loop never examines the
@@ -166,9 +165,14 @@ theorem sortModels_respects_bases (imp : List (List Nat)) (f : Nat) (l l' : List
     rcases hbn with hbn | hbn
     · exact Or.inr hbn
     · exact absurd hbn hne
-  · have := (swapLoop_spec imp f _ l' h).2 p x q hl hq
-    simp only [basesResolved, List.all_eq_true, Bool.or_eq_true, beq_iff_eq, List.contains_iff_mem] at this
-    rcases this b hb with h1 | h1
+  · have hperm := sortModels_perm imp f l l' h
+    have hbl : b ∈ l.map (·.name) := ((hperm.map (·.name)).mem_iff).mp hbn
+    have := (swapLoop_spec _ imp f _ l' h).2 p x q hl hq
+    simp only [basesResolved, List.all_eq_true, Bool.or_eq_true, beq_iff_eq, List.contains_iff_mem,
+      Bool.not_eq_true'] at this
+    rcases this b hb with (h1 | h1) | h1
+    · have : b ∉ l.map (·.name) := by simpa using h1
+      exact absurd hbl this
     · exact absurd h1 hne
     · simp only [List.mem_append, List.mem_reverse] at h1
       exact h1.symm
@@ -176,28 +180,32 @@ theorem sortModels_respects_bases (imp : List (List Nat)) (f : Nat) (l l' : List
 example : sortModels [[66, 97]] 10 [⟨[67], [[65]]⟩, ⟨[65], [[66, 97]]⟩, ⟨[66], [[67]]⟩] =
     some [⟨[65], [[66, 97]]⟩, ⟨[67], [[65]]⟩, ⟨[66], [[67]]⟩] := by decide
 
-/-- The `while changed` loop stops (some amount of fuel suffices) when every base class of every
-model of the module is imported or a class of the module, and inheritance inside the module is
-acyclic. Both hypotheses are about names *as `__sort_models` sees them* (`type_hint` of the base vs
-`class_name` / imported names) — known finding C11-keeporder-hang is an input on which the first
-one fails for acyclic inheritance. -/
+/-- The `while changed` loop stops (some amount of fuel suffices) whenever inheritance among the
+classes OF THE MODULE is acyclic. Base classes that are not classes of the module (imported ones,
+also under an alias, or unknown ones) no longer take part since commit 4fca813, so nothing has to be
+assumed about them. The remaining hypothesis is what `sort_ok_implies_acyclic` gives for paths; that
+the type hint of an in-module base equals the class name of its model is not proved, only tested. -/
 theorem sortModels_terminates_acyclic (imp : List (List Nat)) (l : List Named)
-    (hyp : AllAvailable imp l) : ∃ f, (sortModels imp f l).isSome = true := by
-  have := swapLoop_terminates_aux imp l hyp _ [] (sortBy (fun a b => lexLe a.name b.name) l) rfl
-    (by simpa using sortBy_perm _ l) trivial
+    (hyp : ModuleAcyclic l) : ∃ f, (sortModels imp f l).isSome = true := by
+  have := swapLoop_terminates_aux (l.map (·.name)) imp l (fun _ => Iff.rfl) hyp _ []
+    (sortBy (fun a b => lexLe a.name b.name) l) rfl (by simpa using sortBy_perm _ l) trivial
   simpa [sortModels] using this
 
-example : AllAvailable [[66, 97]] [⟨[67], [[65]]⟩, ⟨[65], [[66, 97]]⟩, ⟨[66], [[67], [66]]⟩] :=
-  ⟨by decide, fun n => if n = [65] then 0 else if n = [67] then 1 else 2, by decide⟩
+/-- non-vacuity: bases `Ba` (imported) and `Zz` (nowhere) do not matter -/
+example : ModuleAcyclic [⟨[67], [[65], [90, 122]]⟩, ⟨[65], [[66, 97]]⟩, ⟨[66], [[67], [66]]⟩] :=
+  ⟨fun n => if n = [65] then 0 else if n = [67] then 1 else 2, by decide⟩
 
-/-- The swap loop of `Parser.__sort_models` has no bound of its own: on classes `A(B)`, `B(A, B)`
-it alternates between the two orders for every amount of fuel (the code loops for ever). It relies
-on `sort_data_models` having rejected cyclic inheritance before — which `cycle_hidden_by_self_base`
-shows it does not always do. -/
+example : (sortModels [] 10 [⟨[67], [[65], [90, 122]]⟩, ⟨[65], [[66, 97]]⟩, ⟨[66], [[67], [66]]⟩]).isSome = true := by
+  decide
+
+/-- The hypothesis is needed: the swap loop has no bound of its own, and on classes `A(B)`, `B(A, B)`
+it alternates between the two orders for every amount of fuel. It relies on `sort_data_models` having
+rejected cyclic inheritance before (`sort_ok_implies_acyclic`). -/
 theorem sortModels_diverges_on_2cycle : ∀ f, sortModels [] f [nmA, nmB] = none := by
   intro f
-  have : sortBy (fun a b => lexLe a.name b.name) [nmA, nmB] = [nmA, nmB] := by decide
-  simp only [sortModels, this]
+  have h1 : sortBy (fun a b => lexLe a.name b.name) [nmA, nmB] = [nmA, nmB] := by decide
+  have h2 : [nmA, nmB].map (·.name) = [[65], [66]] := by decide
+  simp only [sortModels, h1, h2]
   exact (swapLoop_cycle_none f).1
 
 /-- Kept for history (defect D3): on a 2-cycle of bases the pass has no fix-point, so the
